@@ -479,3 +479,40 @@ CATALOGUE.append(dict(name="on-C08-1-offsets-validated-monotonic-at-parse", kind
 CATALOGUE.append(dict(name="on-C08-1-negative-length-rejected-at-use", kind="benign", props=["C08"], rule="", where="", patch="seeded/C08-1/patch.diff",
     edits=[("rle/rle.go", "	offset := d.getSegmentOffset(segment)\n	return d.data[offset : offset+d.getSegmentLength(segment)]", "	offset := d.getSegmentOffset(segment)\n	n := d.getSegmentLength(segment)\n	if n < 0 {\n		n = 0\n	}\n	return d.data[offset : offset+n]")]))
 seed("C08-1", "C08", "SLICE-ORDER")
+
+# ---------------------------------------------------------------- round 6 (R17..R20): performance, API clean-up, consolidation, readability
+refactor("R17-1", ["C16", "C17", "C08"])
+refactor("R17-2", ["C16", "C08", "C09", "C10"])
+refactor("R17-3", ["C16", "C17", "C19", "C04"])
+refactor("R17-4", ["C08", "C09"])
+refactor("R17-5", ["C08", "C10", "C17", "C06"])
+refactor("R19-1", ["C16", "C17", "C08", "C15"])
+refactor("R19-2", ["C05", "C06", "C10", "C18", "C17"])
+refactor("R19-3", ["C04", "C08", "C09", "C16"])
+refactor("R19-4", ["C16", "C19", "C17", "C04"])
+refactor("R19-5", ["C08", "C09", "C10", "C19"])
+refactor("R20-1", ["C04", "C08", "C09", "C16"])
+refactor("R20-2", ["C08", "C09", "C10", "C19"])
+refactor("R20-3", ["C08", "C09", "C16"])
+refactor("R20-4", ["C08", "C09", "C10", "C16", "C17"])
+refactor("R20-5", ["C05", "C06", "C08", "C10", "C18"])
+refactor("RX-2", ["C16", "C04"])
+
+brk_on("R19-2", "on-R19-2-shared-frame-loop-skips-empty-results", ["C10"],
+    [("codec/frames.go", "		if err := dst.AddFrame(converted); err != nil {", "		if len(converted) == 0 {\n			continue\n		}\n		if err := dst.AddFrame(converted); err != nil {")],
+    "ORDER-FRAMES", "ConvertFrames")
+brk_on("R19-2", "on-R19-2-shared-frame-loop-starts-at-one", ["C10"],
+    [("codec/frames.go", "	for frameIndex := range frameCount {", "	for frameIndex := 1; frameIndex < frameCount; frameIndex++ {")],
+    "ORDER-FRAMES", "ConvertFrames")
+brk_on("R19-2", "on-R19-2-ht-decoder-factory-returns-ebcot-decoder", ["C06"],
+    [("jpeg2000/htj2k/codec.go", "	htBlocks := func(width, height int, _ int) t2.BlockDecoder {\n		return NewHTDecoder(width, height)\n	}", "	htBlocks := func(width, height int, cblkstyle int) t2.BlockDecoder {\n		return t1.NewT1Decoder(width, height, cblkstyle)\n	}")],
+    "FLOWS-HTFACTORY", "HTJ2K")
+brk_on("R19-4", "on-R19-4-builder-length-excludes-itself", ["C16"],
+    [("jpeg2000/encoder_markers.go", "	binary.BigEndian.PutUint16(length[:], uint16(len(s.payload)+2))", "	binary.BigEndian.PutUint16(length[:], uint16(len(s.payload)))")],
+    "BYTES", "appendTo")
+brk_on("R19-4", "on-R19-4-tile-part-psot-forgets-header", ["C16"],
+    [("jpeg2000/encoder_markers.go", "uint32(len(tp.data)+len(tp.header)+tilePartFraming))", "uint32(len(tp.data)+tilePartFraming))")],
+    "BYTES", "tilePart")
+brk_on("R20-2", "on-R20-2-com-payload-guard-too-small", ["C08"],
+    [("jpeg2000/decoder.go", "		if len(com.Data) <= comMCTHeaderLen {\n			continue\n		}\n		rows :=", "		if len(com.Data) <= comMagicLen+1 {\n			continue\n		}\n		rows :=")],
+    "SLICE-CONST", "mctFromCOM")
